@@ -119,6 +119,16 @@ func genC06(r *Rng) *Plan {
 	cfg := swarmConfig(r)
 	two := r.Chance(1, 2)
 	cfg.Routes = []Route{routeFor(1, nil)}
+	groupRule := r.Chance(1, 3)
+	if groupRule {
+		// "… and the user passes the upstream's rules": a group rule, alone or next to a domain rule
+		opts := map[string]any{"allowed_groups": r.Pick0s([][]string{{"eng"}, {"ops", "eng"}, {"evil"}})}
+		if r.Chance(1, 2) {
+			opts["allowed_email_domains"] = []string{r.Pick("example.com", "other.org")}
+		}
+		cfg.Routes = []Route{routeFor(1, opts)}
+		cfg.DefaultDomains = nil
+	}
 	if two {
 		cfg.Routes = append(cfg.Routes, routeFor(2, map[string]any{"allowed_email_domains": []string{"other.org"}}))
 	}
@@ -185,6 +195,12 @@ func genC06(r *Rng) *Plan {
 		if r.Chance(1, 6) {
 			st.Dt = cfg.TokenTTL + 5*time.Second // the code's session expires first
 		}
+		if groupRule && r.Chance(1, 2) {
+			// the authenticator does not (or cannot) answer the group question asked during this callback
+			p.Steps = append(p.Steps, Step{Op: "l2", Endpoint: "profile", L2: []L2Answer{l2Answer(r.Pick("503", "429", "500", "401", "200junk"))}})
+			p.Steps = append(p.Steps, st, Step{Op: "l2", Sub: "clear"})
+			continue
+		}
 		p.Steps = append(p.Steps, st)
 	}
 	return p
@@ -200,6 +216,10 @@ func genC12(r *Rng) *Plan {
 	}
 	if r.Chance(1, 10) {
 		rt.Options["skip_request_signing"] = true
+	}
+	if r.Chance(1, 3) {
+		// headers the proxy itself adds for this upstream: whatever reaches the backend is what was signed
+		rt.Options["inject_request_headers"] = map[string]string{r.Pick("Authorization", "Authorization", "X-Api-Key", "Date", "Content-Type"): r.Pick("Basic c2ltOnNpbQ==", "injected-value")}
 	}
 	cfg.Routes = []Route{rt}
 	p := &Plan{Cfg: cfg, Users: stdUsers, Gen: "signing"}
@@ -346,6 +366,15 @@ func genC13(r *Rng) *Plan {
 		p.Steps = append(p.Steps, Step{Op: "get", B: "t1", Host: fh, Target: "/", Dt: r.PickDur(cfg.ValidTTL+3*time.Second, cfg.TokenTTL+3*time.Second),
 			Twin: &Step{Op: "get", B: "t1", Host: sh, Target: "/"}})
 	}
+	if rw >= 1 && r.Chance(1, 3) {
+		// a session on a host served by a rewrite route; then requests whose forwarding headers name other hosts:
+		// the backend is the one the pattern derives from the Host
+		p.Steps = append(p.Steps, Step{Op: "login", B: "rw", User: "alice@example.com", Host: "foo.dyn.sso.sim", Target: "/"})
+		for k, m := 0, r.Range(1, 3); k < m; k++ {
+			p.Steps = append(p.Steps, Step{Op: "get", B: "rw", Host: "foo.dyn.sso.sim", Target: r.Pick("/", "/x?y=1"),
+				Headers: [][2]string{{r.Pick("X-Forwarded-Host", "X-Forwarded-Host", "X-Forwarded-Server", "X-Original-Host"), r.Pick("bar.dyn.sso.sim", "app1.dyn.sso.sim", "evil.backend.sim:80", "foo.dyn.sso.sim")}}})
+		}
+	}
 	n := r.Steps(6, 20)
 	for i := 0; i < n; i++ {
 		h := hosts[r.Intn(len(hosts))]
@@ -368,7 +397,12 @@ func genC13(r *Rng) *Plan {
 			p.Steps = append(p.Steps, Step{Op: "jar", B: b, Sub: "rehost", Host: hostNoPort(h)})
 			p.Steps = append(p.Steps, Step{Op: "get", B: b, Host: h, Target: "/cross"})
 		default:
-			p.Steps = append(p.Steps, Step{Op: "get", B: b, Host: h, Target: r.Pick("/", "/x?y=1", "/oauth2/auth"), Dt: posDur(landmark(r, cfg) / 3)})
+			st := Step{Op: "get", B: b, Host: h, Target: r.Pick("/", "/x?y=1", "/oauth2/auth"), Dt: posDur(landmark(r, cfg) / 3)}
+			if r.Chance(1, 6) {
+				// what the client says about forwarding decides nothing: the backend follows the Host
+				st.Headers = [][2]string{{r.Pick("X-Forwarded-Host", "X-Forwarded-Host", "Forwarded", "X-Original-Host"), r.Pick("bar.dyn.sso.sim", "app2.sso.sim", "evil.backend.sim:80", "foo.x.sso.sim", "for=1.2.3.4;host=app2.sso.sim")}}
+			}
+			p.Steps = append(p.Steps, st)
 		}
 	}
 	return p
@@ -386,6 +420,11 @@ func genC18(r *Rng) *Plan {
 		opts["header_overrides"] = map[string]string{r.Pick("X-Frame-Options", "X-Xss-Protection", "X-Content-Type-Options", "x-frame-options"): r.Pick("DENY", "0", "max-age=60", "ALLOW-FROM https://x.sim")}
 	}
 	cfg.Routes = []Route{routeFor(1, opts)}
+	plainSecond := r.Chance(1, 2)
+	if plainSecond {
+		// another upstream of the same deployment that overrides nothing: it gets the proxy's own values
+		cfg.Routes = append(cfg.Routes, routeFor(2, map[string]any{"skip_auth_regex": []string{"^/public/"}}))
+	}
 	p := &Plan{Cfg: cfg, Users: stdUsers, Gen: "hardening"}
 	host := cfg.Routes[0].From
 	p.Steps = append(p.Steps, Step{Op: "login", B: "b1", User: "alice@example.com", Host: host, Target: "/"})
@@ -436,6 +475,9 @@ func genC18(r *Rng) *Plan {
 		if r.Chance(1, 6) {
 			st.HostHdr = r.Pick("nomatch.sso.sim", host+":443", strings.ToUpper(host))
 		}
+		if plainSecond && r.Chance(1, 3) {
+			st.Host, st.B = cfg.Routes[1].From, "anon"
+		}
 		p.Steps = append(p.Steps, st)
 		p.Steps = append(p.Steps, Step{Op: "net", Name: "proxy-up>" + cfg.Routes[0].Backend[0], Sub: "clear"})
 	}
@@ -453,6 +495,7 @@ var hostileStrings = []string{`<script>alert(1)</script>`, `"><img src=x onerror
 // each hostile step preceded by its benign twin.
 func genC20(r *Rng) *Plan {
 	cfg := swarmConfig(r)
+	cfg.AuthLifetime = r.PickDur(2*time.Hour, 6*time.Hour) // shorter than the cookie's own expiry: a browser can still hold a session past its lifetime
 	cfg.Routes = []Route{routeFor(1, nil)}
 	cfg.AuthDomains = []string{"*"}
 	cfg.DefaultDomains = []string{"*"}
@@ -488,7 +531,34 @@ func genC20(r *Rng) *Plan {
 			}
 			return st
 		}
-		switch r.Intn(9) {
+		switch r.Intn(10) {
+		case 9: // sign-in page shown to a browser whose authenticator session has run out its lifetime (or was never there),
+			// for a signed redirect whose *host* carries the text (a label under the root domain)
+			label := strings.Map(func(c rune) rune {
+				if strings.ContainsRune("/?#%@:\\[] \t\n\x00", c) || c > 0x7e {
+					return -1
+				}
+				return c
+			}, h)
+			expired := r.Chance(2, 3)
+			if expired {
+				pair(func(s string) Step {
+					return Step{Op: "login", B: "e-" + fmt.Sprint(s != "benign"), User: "benign@example.com", Host: host, Target: "/"}
+				}, h)
+			}
+			first := true
+			pair(func(s string) Step {
+				l := "benign"
+				if s != "benign" {
+					l = label
+				}
+				st := extra(Step{Op: "authreq", B: "e-" + fmt.Sprint(s != "benign"), Endpoint: "sign_in", Sub: "good", Str: "https://app" + l + "." + RootDomain + "/oauth2/callback"})
+				if expired && first {
+					st.Dt = cfg.AuthLifetime + time.Minute
+				}
+				first = false
+				return st
+			}, h)
 		case 0: // proxy error page: provider error string
 			pair(func(s string) Step {
 				return extra(Step{Op: "get", B: "anon", Host: host, Target: "/oauth2/callback?error=" + queryEscape(s)})
